@@ -15,6 +15,7 @@ EXPLANATION = (
     "document file (index builder, clear(), sync exclusion, migration) folds to the same file name constant; (b) the "
     "document handle is dropped when the id changes (C03-b) and, on remove(), cleared before it is dropped so that no "
     "buffered write for a removed job survives; (c) the document setters funnel through reset() of the same handle."
+    " A document collection is never entered into a table shared between handles (it lives in the handle's field only); the document setters perform reset() on every normal path."
 )
 UNDECIDED = ("Dict-equivalence for all operation sequences and buffered == unbuffered are semantics of the synced_collections "
              "dependency and are not decided by this analysis.")
